@@ -184,7 +184,7 @@ class PricerStub:
 def replay_calibration(sc):
     """real COS pricer and Brent: calibrate the default parameter of the model and reprice"""
     mt = getattr(ModelType, sc["model"])
-    model = MU.create_exponential_of_levy_model(mt)()
+    model = MU.create_exponential_of_levy_model(mt)(spot=90.0, r=0.05, d=0.03)
     before = copy.deepcopy(vars(model.levy_model.parameters))
     try:
         cal = MU.run_default_calibration(model, maturity=1.0, bs_sigma=0.12)
@@ -211,7 +211,7 @@ def replay_calibration(sc):
 
 def h_calibrate(ctx, mt_name):
     mt = getattr(ModelType, mt_name)
-    model = MU.create_exponential_of_levy_model(mt)()
+    model = MU.create_exponential_of_levy_model(mt)(spot=90.0, r=0.05, d=0.03)  # non-default market data: the target must use them
     conf = MU.default_calibration[mt]
     before = dict(vars(model.levy_model.parameters))
     PricerStub.calls = []
